@@ -173,7 +173,7 @@ impl HnswVectorIndex {
 }
 #[verifier::external_body]
 fn normalize_in_place_if_needed(distance: DistanceMetric, embedding: &mut Vec<f32>) -> (r: Result<()>)
-    ensures r.is_err() ==> final(embedding)@ == old(embedding)@, final(embedding)@.len() == old(embedding)@.len()
+    ensures final(embedding)@.len() == old(embedding)@.len()
 { unimplemented!() }
 
 //@item engine/src/hnsw_backend.rs struct HnswBackend
